@@ -253,6 +253,8 @@ impl ServerInner {
                 // Signal accept thread to stop.
                 // Signal is non-blocking; we wait for thread to stop later.
                 self.waker_queue.wake(WakerInterest::Stop);
+                #[cfg(actix_net_verif)]
+                crate::verif::failpoint("server:stop-between-accept-and-workers");
 
                 // send stop signal to workers
                 let workers_stop = self
